@@ -31,16 +31,18 @@ type RecOp struct {
 }
 
 type EvalResult struct {
-	Stable    int            `json:"stable"`
-	Required  int            `json:"req"`
-	Problems  []Problem      `json:"p,omitempty"`
-	RecOps    []RecOp        `json:"rec,omitempty"`
-	RecWrites int            `json:"recw"`
-	Cont      int            `json:"cont"`
-	ContDone  bool           `json:"contdone"`
-	Abandoned bool           `json:"abandoned,omitempty"`
-	Timeouts  int            `json:"timeouts,omitempty"`
-	Us        map[string]int `json:"us,omitempty"`
+	Stable    int       `json:"stable"`
+	Required  int       `json:"req"`
+	Problems  []Problem `json:"p,omitempty"`
+	RecOps    []RecOp   `json:"rec,omitempty"`
+	RecWrites int       `json:"recw"`
+	Cont      int       `json:"cont"`
+	ContDone  bool      `json:"contdone"`
+	Abandoned bool      `json:"abandoned,omitempty"`
+	Timeouts  int       `json:"timeouts,omitempty"`
+	// StallsNotReproduced: a first evaluation hit the gate's real-time cap, this (second) one did not
+	StallsNotReproduced int            `json:"stallsnr,omitempty"`
+	Us                  map[string]int `json:"us,omitempty"`
 }
 
 func (r *EvalResult) add(class, detail string) {
